@@ -18,7 +18,7 @@ RULE = (
     "successful link change (enumerated single steps: the call changed a link or raised after a hook ran)."
     " Also: interrupt-like BaseExceptions among the fault plans; chains deeper than the interpreter's recursion limit (upward-looking attributes, Walker, commonancestors, four structural calls) in lock-step."
     ' Also: a class pair overriding the public children property, sparse reads, iter_path_reverse consumed step by step while nodes move.'
-    ' Rounds 11-14: run-time config switch, sealed nodes, recursion band, classes overriding iter_path_reverse/__str__.'
+    ' Rounds 11-14: run-time config switch, sealed nodes, recursion band, classes overriding iter_path_reverse/__str__. Round 16: a class whose public children view hides members.'
 )
 ASSUMPTIONS = [
     "pure differential oracle: no reference model, the two mixins are compared with each other",
@@ -213,6 +213,10 @@ def check_overrides(case, acc):
                 yield virtual
 
             body["iter_path_reverse"] = iter_path_reverse
+        elif case["override"] == "children":
+            # a public children view that leaves out hidden nodes (round 16): whatever the mixins derive from the view
+            # and whatever they derive from their own list, they do it alike
+            body["children"] = property(lambda self: tuple(c for c in base.children.fget(self) if c.name not in "bd"), base.children.fset, base.children.fdel)
         else:
             def boom(self):
                 raise mut.ReprBoom()
@@ -236,7 +240,7 @@ def check_overrides(case, acc):
                 return "raised " + type(exc).__name__
 
         def view():
-            return [(n.name, attempt(lambda: n.depth), attempt(lambda: len(n.path)), attempt(lambda: len(n.ancestors)), attempt(lambda: n.is_root), attempt(lambda: [x.name if x is not virtual else "virtual" for x in n.iter_path_reverse()])) for n in (r, a, b, c, d)]
+            return [(n.name, attempt(lambda: n.depth), attempt(lambda: len(n.path)), attempt(lambda: len(n.ancestors)), attempt(lambda: n.is_root), attempt(lambda: [x.name if x is not virtual else "virtual" for x in n.iter_path_reverse()]), attempt(lambda: n.is_leaf), attempt(lambda: n.height), attempt(lambda: [x.name for x in n.children]), attempt(lambda: [x.name for x in n.leaves]), attempt(lambda: [x.name for x in n.descendants]), attempt(lambda: [x.name for x in n.siblings]), attempt(lambda: n.size)) for n in (r, a, b, c, d)]
 
         out.append(view())
         for call in (lambda: setattr(b, "parent", c), lambda: setattr(r, "parent", b), lambda: setattr(a, "parent", a), lambda: setattr(r, "children", [a, a]), lambda: setattr(d, "parent", b), lambda: setattr(c, "children", [r])):
@@ -396,7 +400,7 @@ def plan(tier, seed):
 
 def run_task(task, acc):
     if task["engine"] == "override":
-        return acc.run_enum(check_case, ({"kind": "override", "override": o} for o in ("iter_path_reverse", "__str__")))
+        return acc.run_enum(check_case, ({"kind": "override", "override": o} for o in ("iter_path_reverse", "__str__", "children")))
     if task["engine"] == "band":
         for factor in task["factors"]:
             case = {"kind": "band", "factor": factor}
